@@ -152,6 +152,15 @@ func c18(args []string) error {
 			if e2 != nil {
 				continue
 			}
+			if r.Intn(3) == 0 {
+				// the model object was initialised before (other frequencies or its own): InitModel starts afresh
+				if r.Intn(2) == 0 {
+					pi = randSimplex(r, 20, 256)
+					mm.InitModel(pif())
+				} else {
+					mm.InitModel(nil)
+				}
+			}
 			if r.Intn(2) == 0 {
 				pi = randSimplex(r, 20, 256)
 				e = mm.InitModel(pif())
